@@ -603,8 +603,11 @@ func (t *Teamserver) handleRequest(id string) {
 
 		logger.Good("User <" + colors.Blue(InfoUser) + "> " + colors.Green("Authenticated"))
 
+		// broadcasters read this flag from other goroutines: publish it under the client lock
+		client.Mutex.Lock()
 		client.Authenticated = true
 		client.ClientID = id
+		client.Mutex.Unlock()
 
 		err := t.SendEvent(id, events.Authenticated(true))
 		if err != nil {
@@ -733,7 +736,11 @@ func (t *Teamserver) EventBroadcast(ExceptClient string, pk packager.Package) {
 
 	t.Clients.Range(func(key, value any) bool {
 		ClientID := key.(string)
-		if ExceptClient != ClientID && value.(*Client).Authenticated {
+		client := value.(*Client)
+		client.Mutex.Lock()
+		Authenticated := client.Authenticated
+		client.Mutex.Unlock()
+		if ExceptClient != ClientID && Authenticated {
 			err := t.SendEvent(ClientID, pk)
 			if err != nil && !strings.Contains(err.Error(), "use of closed network connection") {
 				logger.Error("SendEvent error: ", colors.Red(err))
